@@ -136,8 +136,11 @@ package reader
 //@   ensures[C01] gr.verify && result == nil ==> okDigest == chunkDigestStr && okData == ref(ip)
 // VerifyTOC: a reader is handed out only if the TOC actually used hashes to the pinned digest and no chunk failed
 // verification before; it switches verification on and never forgets a recorded failure
+// (the failure record is read after the mode switch and inside the same exclusive critical section: a failing
+// readAndCache either recorded its failure before -- it holds the lock shared while it does -- or sees the strict mode)
 //@ func (vr *VerifiableReader) VerifyTOC
 //@   props C01
+//@   assert[C01] before "vr.loadLastVerifyErr()" : holds(vr.prohibitVerifyFailureMu) && vr.prohibitVerifyFailure
 //@   requires vr.r != nil && vr.r.r != nil
 //@   ensures[C01] result1 == nil ==> result0 != nil && tocOf(payload(vr.r.r)) == tocDigest && vr.r.verify && old(vr.lastVerifyErr) == nil
 //@   ensures[C01] vr.lastVerifyErr == old(vr.lastVerifyErr) && (result1 == nil ==> vr.prohibitVerifyFailure)
